@@ -416,7 +416,7 @@ func c03Units(tier string) []*Unit {
 	for _, xflag := range []bool{false, true} {
 		xflag := xflag
 		pg := &Prog{Tasks: []*T{
-			{Name: "a", Run: "once", Cmds: []C{P(), {Exit: 7}, P()}},
+			{Name: "a", Run: "once", Label: "the-a", Cmds: []C{P(), {Exit: 7}, P()}},
 			{Name: "b", IgnoreError: true, Cmds: []C{CallS("a", "="), P()}},
 			{Name: "c", Cmds: []C{CallS("a", "="), P()}},
 		}}
